@@ -24,6 +24,10 @@ Abstract program (JSON-able dict, so it can be written into replay files as is):
 * `arg` nodes with attrs.role == "main" are the model inputs (named `in<id>`); role "formal" are
   body formals.  A body may refer to any older node (closure); a node that depends on a formal is
   only ever used inside that formal's body (leak-free by construction).
+* excluded on purpose (runtime hygiene, not spox's business): Cast applied directly to a Cast result
+  (onnxruntime's always-on duplicate-cast removal loses implicit inputs of bodies), float ReduceSum
+  (summation order), Where on bool operands (no kernel), values leaving ±2^40 / ±1e25 (the binding is
+  skipped: `stats["wild"]`).
 * types: dtype ∈ i64, f32, bool; shape = list of ints (None = dimension only known at run time);
   `loose` marks Loop's iteration counter / condition formals and what is derived from them: spox
   declares them with shape (1,) while runtimes pass scalars, so they are only used where both
@@ -183,7 +187,8 @@ class _Gen:
         if cands and self.rng.random() < p_reuse:
             return self.pick(cands)
         # derive from something of the same shape through Cast, else a constant
-        alt = self.usable(active, lambda u: u[1] == t[1] and not u[2] and u[0] != t[0] and concrete(u))
+        alt = [r for r in self.usable(active, lambda u: u[1] == t[1] and not u[2] and u[0] != t[0] and concrete(u))
+               if self.nodes[r[0]]["op"] != "Cast"]
         if alt and self.rng.random() < 0.5:
             k = self.add("Cast", [self.pick(alt)], attrs={"to": t[0]}, tys=[t])
             return (k, 0)
@@ -232,7 +237,9 @@ class _Gen:
                 self.add(rng.choice(["Add", "Add", "Mul"]), [a, b], tys=[ty(ta[0], sh[0], sh[1])])
             return
         if choice == "cast":
-            a = self.pick(self.usable(active))
+            # never Cast directly on a Cast result: onnxruntime's mandatory duplicate-cast removal
+            # (runs even with optimisations disabled) loses the value when only bodies consume it
+            a = self.pick([r for r in self.usable(active) if self.nodes[r[0]]["op"] != "Cast"])
             if a is None:
                 return
             t = self.tyof(a)
@@ -276,7 +283,8 @@ class _Gen:
             self.add("Clip", [x, lo, hi], tys=[t])
             return
         if choice == "rsum":
-            x = self.pick(self.usable(active, lambda u: num(u) and not u[2] and len(u[1]) >= 1))
+            # integers only: a float sum is the one place where numpy and a runtime may round differently
+            x = self.pick(self.usable(active, lambda u: u[0] == "i64" and not u[2] and len(u[1]) >= 1))
             if x is None:
                 return
             self.add("ReduceSum", [x, None], attrs={"keepdims": 0}, tys=[ty(self.tyof(x)[0], [])])
@@ -404,7 +412,7 @@ class _Gen:
         self.add("Loop", [m, cond0] + inits, [body], tys=tys)
 
 
-def gen_program(rng: random.Random, size: int = 20, max_depth: int = 3) -> dict:
+def gen_program(rng: random.Random, size: int = 20, max_depth: int = 3, opset: int = 17) -> dict:
     """A seeded random, well-typed, leak-free program with about `size` nodes."""
     g = _Gen(rng, size, max_depth)
     kinds = [ty("i64", [N]), ty("f32", [N]), ty("i64", []), ty("bool", []), ty("bool", [N]), ty("f32", [])]
@@ -430,7 +438,7 @@ def gen_program(rng: random.Random, size: int = 20, max_depth: int = 3) -> dict:
         if c not in outs:
             outs.append(c)
     rng.shuffle(outs)
-    return {"nodes": g.nodes, "outputs": [list(o) for o in outs], "opset": 17}
+    return {"nodes": g.nodes, "outputs": [list(o) for o in outs], "opset": opset}
 
 
 # --------------------------------------------------------------------------- program utilities
@@ -550,7 +558,7 @@ def typecheck(prog) -> list[str]:
                 ok = T(ins[0])[0] == "bool" and same_ty(out[0], T(ins[0]))
             elif op == "Cast":
                 a = T(ins[0])
-                ok = n["attrs"]["to"] in DT and same_ty(out[0], ty(n["attrs"]["to"], a[1], a[2]))
+                ok = n["attrs"]["to"] in DT and same_ty(out[0], ty(n["attrs"]["to"], a[1], a[2])) and nodes[ins[0][0]]["op"] != "Cast"
             elif op == "Where":
                 c, x, y = T(ins[0]), T(ins[1]), T(ins[2])
                 ok = (c[0] == "bool" and not c[2] and c[1] in (x[1], []) and same_ty(x, y) and x[0] in NUMERIC
@@ -565,7 +573,7 @@ def typecheck(prog) -> list[str]:
                     r is None or same_ty(T(r), ty(x[0], [])) for r in ins[1:3]) and len(ins) == 3
             elif op == "ReduceSum":
                 x = T(ins[0])
-                ok = x[0] in NUMERIC and not x[2] and len(x[1]) >= 1 and ins[1] is None and same_ty(out[0], ty(x[0], []))
+                ok = x[0] == "i64" and not x[2] and len(x[1]) >= 1 and ins[1] is None and same_ty(out[0], ty(x[0], []))
             elif op == "Split":
                 x = T(ins[0])
                 sizes = [t[1][0] for t in out]
@@ -824,11 +832,12 @@ def realise(prog, rng: random.Random, style: str = "lazy") -> Realised:
     *-extras        additionally constructs unrequested operators on existing values at random points
                     (in the main program and inside callbacks)
     """
-    import spox.opset.ai.onnx.v17 as op17
+    import importlib
+
     from spox import Tensor, argument
     from spox._future import initializer
 
-    op = op17
+    op = importlib.import_module(f"spox.opset.ai.onnx.v{prog.get('opset', 17)}")
     nodes = prog["nodes"]
     dep = formal_deps(prog)
     R = Realised()
@@ -1212,13 +1221,14 @@ def lean_request(prog, emission, vals: list[list[int]], seed: int) -> dict:
 
 
 def emission_stats(em) -> dict:
-    st = {"graphs": 0, "nodes": 0, "depth": 0}
+    st = {"graphs": 0, "nodes": 0, "depth": 0, "depth_of": {}}
 
     def walk(g, d):
         st["graphs"] += 1
         st["depth"] = max(st["depth"], d)
         for k, subs in g[1]:
             st["nodes"] += 1
+            st["depth_of"][k] = d
             for s in subs:
                 walk(s, d + 1)
 
